@@ -40,6 +40,7 @@ import (
 	"mellium.im/xmpp/verifharness/bufconn"
 	"mellium.im/xmpp/verifharness/core"
 	"mellium.im/xmpp/verifharness/sess"
+	"mellium.im/xmpp/verifharness/stall"
 	"mellium.im/xmpp/verifharness/xmltree"
 )
 
@@ -81,6 +82,11 @@ type AppSend struct {
 	At      int    `json:"at"`
 	Via     string `json:"via"`     // Send | SendElement | SendIQ
 	Payload string `json:"payload"` // balanced | unbalanced-eof (the reader ends with an element open) | reader-error (the reader fails in mid-element)
+	// IQType (Via SendIQ with a failing reader only): the type of the request;
+	// get/set make it a tracked request whose transmission fails.  The peer
+	// later sends a reply carrying its id (the id is app<k>) and goes on with
+	// further requests, all of which have to be answered.  "" = result.
+	IQType string `json:"iq_type,omitempty"`
 }
 
 // Collision describes an "id collision" case: while one of our own requests
@@ -511,6 +517,31 @@ func gen(r *rand.Rand) Scenario {
 			})
 		}
 	}
+	for k := range sc.AppSends {
+		as := &sc.AppSends[k]
+		if as.Via != "SendIQ" || as.Payload != "reader-error" || r.Intn(3) == 0 {
+			continue
+		}
+		// a tracked request whose transmission fails; the peer, which saw the
+		// broken-off request, answers it (or anything else arrives with that
+		// id), and then asks for more
+		as.IQType = pick(r, "get", "set")
+		late := fmt.Sprintf("<iq type='%s' id='app%d' from='%s'/>", pick(r, "result", "error", "result"), k, pick(r, "example.org", "juliet@example.org/balcony"))
+		if r.Intn(4) == 0 {
+			late = fmt.Sprintf("<iq type='error' id='app%d'><error type='cancel'><bad-request xmlns='urn:ietf:params:xml:ns:xmpp-stanzas'/></error></iq>", k)
+		}
+		more := []string{late}
+		for i, m := 0, 1+r.Intn(2); i < m; i++ {
+			more = append(more, fmt.Sprintf("<iq type='%s' id='after%d-%d' from='romeo@example.org/orchard'><ping xmlns='urn:xmpp:ping'/></iq>", pick(r, "get", "set"), k, i))
+		}
+		for _, raw := range more {
+			if sc.WS {
+				raw = wsFrame(raw)
+			}
+			sc.Input = append(sc.Input, raw)
+			sc.Programs = append(sc.Programs, Program{Ret: "nil"})
+		}
+	}
 	if sc.WS {
 		// the peer's close frame ends the input (on this tree it is dispatched
 		// like an element: it gets a program that does nothing)
@@ -780,9 +811,15 @@ func (st *runState) appSends(s *xmpp.Session, at int) {
 		}
 		hw := xml.Attr{Name: xml.Name{Local: "hw"}, Value: fmt.Sprintf("app%d", k)}
 		to := xml.Attr{Name: xml.Name{Local: "to"}, Value: st.o.Remote}
+		tracked := false
 		start := xml.StartElement{Name: xml.Name{Local: "message"}, Attr: []xml.Attr{to, hw}}
 		if as.Via == "SendIQ" {
-			start = xml.StartElement{Name: xml.Name{Local: "iq"}, Attr: []xml.Attr{{Name: xml.Name{Local: "type"}, Value: "result"}, {Name: xml.Name{Local: "id"}, Value: fmt.Sprintf("app%d", k)}, to, hw}}
+			typ := "result"
+			if as.IQType != "" && as.Payload == "reader-error" {
+				typ = as.IQType
+				tracked = true
+			}
+			start = xml.StartElement{Name: xml.Name{Local: "iq"}, Attr: []xml.Attr{{Name: xml.Name{Local: "type"}, Value: typ}, {Name: xml.Name{Local: "id"}, Value: fmt.Sprintf("app%d", k)}, to, hw}}
 		}
 		body := xml.StartElement{Name: xml.Name{Local: "body"}}
 		payload := []xml.Token{body, xml.CharData("from the application")}
@@ -811,11 +848,12 @@ func (st *runState) appSends(s *xmpp.Session, at int) {
 			}
 			err = s.Send(ctx, &appReader{t: all, err: rerr})
 		}
-		st.appSent = append(st.appSent, appSent{at: at, payload: as.Payload, err: err})
+		st.appSent = append(st.appSent, appSent{at: at, payload: as.Payload, err: err, tracked: tracked})
 	}
 }
 
 type appSent struct {
+	tracked bool // a get/set request through SendIQ whose transmission failed
 	at      int
 	payload string
 	err     error
@@ -1261,8 +1299,37 @@ func Run(c *core.Case, sc Scenario) {
 		p.ClosePeer()
 	}
 	p.Peer.CloseWrite()
+	// Serve runs on its own goroutine so that a serve loop that never comes
+	// back is decided by the quiescent-stall rule (all of the input is in the
+	// transport and the peer has closed: nothing more can arrive) and not by the
+	// watchdog, whose firing decides nothing.
 	var serveErr error
-	if c.Guard("Serve", func() { serveErr = p.S.Serve(outer) }) {
+	var panicked bool
+	before := stall.Snapshot(nil)
+	done := make(chan struct{})
+	go func() {
+		defer close(done)
+		panicked = c.Guard("Serve", func() { serveErr = p.S.Serve(outer) })
+	}()
+	progress := func() int64 {
+		_, _, ops := p.Lib.Ops()
+		return int64(ops)
+	}
+	if finished, quiescent := stall.AwaitQuiet(done, progress, 2*time.Second, 45*time.Second); !finished {
+		defer func() { p.Peer.Close(); p.Lib.Close() }()
+		if quiescent {
+			for _, pk := range stall.Check(nil, 0) {
+				if _, old := before[pk.ID]; old {
+					continue // left behind by an earlier case of this child
+				}
+				c.Violate(stall.Key(pk), "all of the input (%d top-level elements, then the end of the stream) is in the transport and nothing moves, but Serve does not return: a library goroutine stays parked\ninput: %s\nwritten so far: %s\n%s", len(st.exp), input, p.Lib.Written(), pk.Stack)
+				return
+			}
+		}
+		c.Inconclusive("Serve did not return (quiescent=%v) and no library goroutine of this case is parked", quiescent)
+		return
+	}
+	if panicked {
 		return
 	}
 	c.Count("streams", 1)
@@ -1662,6 +1729,9 @@ func judge(c *core.Case, sc Scenario, o sess.Opts, st *runState, written []byte,
 	for _, a := range st.appSent {
 		c.Count("app_sends", 1)
 		c.Count("app_send_"+a.payload, 1)
+		if a.tracked {
+			c.Count("app_tracked_requests_whose_transmission_failed", 1)
+		}
 		if a.err != nil {
 			c.Count("app_send_returned_error", 1)
 		}
@@ -1875,7 +1945,7 @@ func Prop() *core.Prop {
 			"conc_stalled_reply_write_was_blocked",
 			"session_websocket", "ws_answered_by_library", "mode_serve-nil", "serve_nil_answered_by_library",
 			"handler_reply_with_xmlns_attr_first", "handler_reply_with_xmlns_attr_middle", "handler_reply_with_xmlns_attr_last", "handler_element_from_xml_decoder",
-			"app_sends", "app_send_unbalanced-eof", "app_send_reader-error", "app_send_balanced", "request_after_unbalanced_app_send",
+			"app_sends", "app_tracked_requests_whose_transmission_failed", "app_send_unbalanced-eof", "app_send_reader-error", "app_send_balanced", "request_after_unbalanced_app_send",
 			"handler_wrote_reply_without_id_to_request", "handler_wrote_reply-noid_bare", "handler_wrote_reply-noid_mux", "handler_wrote_reply-emptyid_bare", "handler_wrote_reply-emptyid_mux",
 			"handler_abandoned_reply", "handler_abandoned_other_element", "answered_by_handler_after_an_abandoned_element",
 			"incoming_qualified_attr_own_ns", "incoming_qualified_attr_foreign_ns",
